@@ -270,8 +270,13 @@ fn check_core(
                     format!("step {step}: the core contains the trivially false predicate although the assumptions are satisfiable over the declared domains (core [{txt}] + [False])"),
                 );
             } else if !implied_ok && !contradictory {
+                // (the constraint kinds of the model are part of the signature: the known instances
+                // of this defect are confined to few kinds)
+                let mut kinds: Vec<&str> = model.cons.iter().map(|c| c.kind_name()).collect();
+                kinds.sort();
+                kinds.dedup();
                 cx.violation(
-                    "core-not-implied-by-assumptions",
+                    format!("core-not-implied-by-assumptions:{}", kinds.join("+")),
                     format!("step {step}: core [{txt}] contains a predicate that the assumptions do not imply"),
                 );
             }
